@@ -417,6 +417,11 @@ def handle (j : Json) : Except String Json := do
     let c2 ← circuitOfJson (← j.getObjVal? "c")
     let sgs ← (← (← j.getObjVal? "sgs").getArr?).toList.mapM circuitOfJson
     pure (respond .ok [("ok", Json.bool (Supergates.supergatesOK c2 sgs)), ("why", jstr (Supergates.why c2 sgs))])
+  | "supergates_algo" =>
+    match Supergates.run (← circuitOfJson (← j.getObjVal? "c")) ord with
+    | .ok r => pure (respond .ok [("heads_distinct", Json.bool r.headsDistinct), ("cyclic", Json.bool r.cyclic),
+        ("sgs", jarr (fun p => Json.mkObj [("head", jstr p.1.head), ("c", circuitToJson p.2)]) r.sgs)])
+    | .error e => pure (respond e [])
   | "verilog_write" =>
     match Verilog.write (← circuitOfJson (← j.getObjVal? "c")) (getBoolD j "behavioral" false) ord with
     | .ok t => pure (respond .ok [("text", jstr t)])
